@@ -188,11 +188,11 @@ func Generate(r *rand.Rand, sz Size) *Model {
 		items = append(items, Item{Kind: "info"})
 	}
 	for i := 0; i < r.Intn(3); i++ {
-		items = append(items, Item{Kind: "server", Server: &Server{Name: fmt.Sprintf("@srv%d", i), Annotation: annotation(r), BaseURL: fmt.Sprintf("https://s%d.example.com/v%d", i, r.Intn(5))}})
+		items = append(items, Item{Kind: "server", Server: &Server{Name: fmt.Sprintf([]string{"@srv%d", "@srv_%d", "@S-r_v%d"}[r.Intn(3)], i), Annotation: annotation(r), BaseURL: fmt.Sprintf("https://s%d.example.com/v%d", i, r.Intn(5))}})
 	}
 	var tagNames []string
 	for i := 0; i < r.Intn(3); i++ {
-		t := &Tag{Name: fmt.Sprintf("@tag%d", i), Annotation: annotation(r)}
+		t := &Tag{Name: fmt.Sprintf([]string{"@tag%d", "@tag_%d", "@t_a_g_%d", "@Tag-%d"}[r.Intn(4)], i), Annotation: annotation(r)}
 		if r.Intn(2) == 0 {
 			t.Description = descLines(r)
 		}
@@ -202,7 +202,7 @@ func Generate(r *rand.Rand, sz Size) *Model {
 	// enums first (their values are needed by schemas), placed anywhere later
 	var enumItems []Item
 	for i := 0; i < r.Intn(sz.Enums+1); i++ {
-		e := &Enum{Name: fmt.Sprintf("@en%d", i), Annotation: annotation(r)}
+		e := &Enum{Name: fmt.Sprintf([]string{"@en%d", "@en_%d", "@E-n_%d"}[r.Intn(3)], i), Annotation: annotation(r)}
 		n := 2 + r.Intn(3)
 		var vals []string
 		for k := 0; k < n; k++ {
@@ -229,7 +229,7 @@ func Generate(r *rand.Rand, sz Size) *Model {
 	nTypes := 1 + r.Intn(sz.Types)
 	var typeItems []Item
 	for i := 0; i < nTypes; i++ {
-		t := &Type{Name: fmt.Sprintf("@ty%d", i), Annotation: annotation(r)}
+		t := &Type{Name: fmt.Sprintf([]string{"@ty%d", "@ty_%d", "@Ty-p_e%d"}[r.Intn(3)], i), Annotation: annotation(r)}
 		switch k := r.Intn(11); {
 		case k == 0:
 			t.Notation, t.Regex = "regex", []string{"ab+c", "[a-z]{3}-[0-9]{2}", "x(y|z)w", "ID[0-9]+"}[r.Intn(4)]
@@ -278,7 +278,7 @@ func Generate(r *rand.Rand, sz Size) *Model {
 		typeItems = append(typeItems, Item{Kind: "type", Type: t})
 	}
 	// path groups
-	segs := []string{"cats", "dogs", "owners", "toys", "v1", "items"}
+	segs := []string{"cats", "dogs", "owners", "toys", "v1", "items", "pet_store_items", "x_y", "a__b_", "data-set", "v1.2", "Caps", "~tilde"}
 	params := []string{"id", "name", "key"}
 	usedPaths := map[string]bool{}
 	definedPrefix := map[string]bool{} // path prefix up to a parameter that already has a definition
